@@ -181,3 +181,72 @@ Proof.
   split; [discriminate|]. split; [exact A|]. split; [exact B | exact C].
 Qed.
 Print Assumptions render_caret_refuted_misaligned.
+
+(* ---------------------------------------------------------------- part 2 over the parser
+   twins (W1): Model/StmtParser.v (twin of Parser.Parse: statement dispatch, SELECT lists, AS,
+   WHERE, ORDER BY / GROUP BY / LIMIT, PUT, REMOVE, DELETE) and Model/ExprParser.v run on the
+   tokens of the lexer twin Model/Lexer.lex.  No abstract provenance model: the premise of the
+   _partial theorems above ("parser.go uses only these builders and sources") is discharged for
+   the parser.  [hooks] are the four semantic tests parser.go runs in the middle of parsing
+   (checkFieldCycles, findFieldInSelect for ORDER BY / GROUP BY items, Check of the GROUP BY
+   fields); [hooks_ok] asks that they report positions of the nodes they are given;
+   [parse_statement] is the pure syntax (no premise). *)
+From KV Require Import Model.Lexer Model.StmtParser Proofs.StmtParserProofs Proofs.ParsePosProofs.
+
+Theorem parse_err_pos_is_token_start : forall (q : string) (h : hooks) (z : Z),
+  hooks_ok (prov (lex q)) (prov (lex q)) h ->
+  parse_with h (lex q) = SErr z ->
+  pos_is_token_start (zstarts (lex q)) z = true.
+Proof. exact parse_err_pos_is_token_start_thm. Qed.
+Print Assumptions parse_err_pos_is_token_start.
+
+Theorem parse_err_pos_in_query : forall (q : string) (h : hooks) (z : Z),
+  hooks_ok (prov (lex q)) (prov (lex q)) h ->
+  parse_with h (lex q) = SErr z ->
+  pos_in_query q z = true.
+Proof. exact parse_err_pos_in_query_thm. Qed.
+Print Assumptions parse_err_pos_in_query.
+
+(* every Pos stored in a returned statement (statement structs and all nodes of all trees) is 0
+   or a token offset, every tree satisfies the invariant of the abstract model, and every Pos
+   lies inside the query *)
+Theorem parse_tree_positions_are_token_starts : forall (q : string) (h : hooks) (s : stmt),
+  hooks_ok (prov (lex q)) (prov (lex q)) h ->
+  parse_with h (lex q) = SOk s ->
+  Forall (prov (lex q)) (stmt_positions s) /\
+  Forall (expr_prov (lex q)) (stmt_exprs s) /\
+  Forall (fun p => pos_in_query q (Z.of_nat p) = true) (stmt_positions s).
+Proof. exact parse_tree_positions_are_token_starts_thm. Qed.
+Print Assumptions parse_tree_positions_are_token_starts.
+
+(* syntax errors of EVERY query text, no premise: -1, or the offset of a token, inside the query *)
+Theorem syntax_err_pos_is_token_start_in_query : forall (q : string) (z : Z),
+  parse_statement (lex q) = SErr z ->
+  z = (-1)%Z \/ (In z (zstarts (lex q)) /\ (0 <= z < Z.of_nat (String.length q))%Z).
+Proof. exact syntax_err_pos_thm. Qed.
+Print Assumptions syntax_err_pos_is_token_start_in_query.
+
+(* the lexer fact used (C16's tiling theorem): every token offset lies inside the query *)
+Theorem lexer_offsets_in_query : forall q : string, tokens_in_query q (lex q).
+Proof. exact lex_tokens_in_query. Qed.
+Print Assumptions lexer_offsets_in_query.
+
+(* the hooks the correspondence runs the twin with (read off the observed rejection offset)
+   satisfy the premise, for every token list and offset *)
+Theorem observed_hooks_satisfy_premise : forall toks p,
+  hooks_ok (prov toks) (prov toks) (observed_hooks p).
+Proof. exact observed_hooks_prov. Qed.
+Print Assumptions observed_hooks_satisfy_premise.
+
+(* non-vacuity: a syntax error in the middle (LIMIT not last), one at end of input, and an
+   accepted statement whose stored positions include the synthetic 0 of `select *` *)
+Example parse_err_nonvacuous :
+  parse_statement (lex "select key as k where key = 'a' limit 1, 2 order by k") = SErr 43%Z /\
+  parse_statement (lex "select key as k where key = 'a' order by") = SErr 32%Z /\
+  parse_statement (lex "put ('a', 'b'") = SErr (-1)%Z.
+Proof. repeat split; vm_compute; reflexivity. Qed.
+
+Example parse_tree_nonvacuous :
+  exists s, parse_statement (lex "select * where key = 'a' order by key desc limit 2, 3;") = SOk s /\
+            stmt_positions s = [0; 9; 25; 43; 0; 0; 19; 15; 21; 34].
+Proof. eexists. split; vm_compute; reflexivity. Qed.
